@@ -551,6 +551,15 @@ func finish(c *Ctx, def *PropDef, m *Part, wall time.Duration) int {
 		cov["traces_validated_against_impl"] = m.Traces
 	}
 	if len(m.Samples) == 0 {
+		// a run in which every case violates records its samples from the violating cases
+		for _, sg := range sigs {
+			if len(m.Samples) < 4 {
+				m.Samples = append(m.Samples, map[string]any{"violating_case": m.Viols[sg].Replay, "signature": sg})
+			}
+		}
+		cov["samples"] = m.Samples
+	}
+	if len(m.Samples) == 0 {
 		fmt.Println("HARNESS-ERROR: the check recorded no sample case")
 		return 2
 	}
